@@ -1181,8 +1181,8 @@ def generate(seed):
     wp['append_via'] = s.choice(['wrapper', 'open'])
     trace['write'] = wp
     mode = cfg['mode']
-    if mode in ('clean', 'indexed') and s.random() < 0.3:
-        k = s.choice(['v3000wrap', 'v3000wrap', 'no_final_delimiter', 'crlf', 'empty_record', 'empty_record', 'v2000props', 'v2000props', 'rireg'])
+    if mode in ('clean', 'indexed') and s.random() < (0.6 if mode == 'indexed' else 0.3):
+        k = s.choice((['empty_record'] * 4 if mode == 'indexed' else []) + ['v3000wrap', 'v3000wrap', 'no_final_delimiter', 'crlf', 'empty_record', 'empty_record', 'v2000props', 'v2000props', 'rireg'])
         if fmt == 'mrv':
             k = 'mrv_compact'
         if (k == 'v3000wrap' and fmt in ('esdf', 'erdf')) or (k == 'empty_record' and fmt != 'mrv') or \
@@ -1269,6 +1269,13 @@ def generate(seed):
                 op.update(a=s.choice([None, s.randrange(-9, 12)]), b=s.choice([None, s.randrange(-9, 12)]),
                           step=s.choice([1, 1, 2, 3, -1, -1, -2]))
             ops.append(op)
+            if k in ('slice', 'seek', 'iterate') and s.random() < 0.5:
+                # sequential reading that stops at some record, immediately followed by integer access to the records around
+                # the stopping point (the reader's position / buffer state is what such patterns depend on)
+                e = s.randrange(0, 8)
+                ops.append({'op': 'slice', 'i': 0, 'a': s.choice([0, 0, 1, e]), 'b': e + 1, 'step': 1})
+                for d in s.sample([0, 0, -1, 1], 2):
+                    ops.append({'op': 'get', 'i': max(0, e + d), 'neg': False})
         reads.append({'indexed': True, 'ops': ops})
     trace['reads'] = reads
     return trace
